@@ -5,13 +5,13 @@ EXTENDS TimexResolve
 
 (* cfg files cannot write tuples: the tuple-valued constants are named here *)
 Q_DateRanges == {<<737060, 737061>>, <<737060, 737067>>, <<737049, 737074>>, <<737394, 737425>>, <<737059, 737425>>, <<737425, 737456>>, <<736573, 736664>>}   \* the last one: 2017-09-01 + P3M, ends on 1 December
-T_DateRanges == Q_DateRanges \cup {<<737029, 737394>>, <<736982, 737074>>, <<737070, 737090>>, <<737119, 737120>>, <<737424, 737427>>, <<737180, 737546>>}
+T_DateRanges == Q_DateRanges \cup {<<737029, 737394>>, <<736982, 737074>>}   \* + P1Y ending on 1 December, P3M across a turn of the year
 Q_TimeRanges == {<<9, 12>>, <<8, 18>>, <<14, 16>>}
 T_TimeRanges == Q_TimeRanges \cup {<<0, 6>>, <<11, 15>>}
-Q_MonthDays == {<<3, 12>>, <<12, 31>>, <<1, 1>>}
+Q_MonthDays == {<<3, 12>>, <<12, 31>>, <<1, 1>>, <<2, 29>>}
 T_MonthDays == Q_MonthDays \cup {<<2, 28>>, <<7, 4>>, <<2, 29>>}
 Q_Times == {<<10, 0, 0>>, <<15, 30, 0>>, <<0, 0, 0>>, <<9, 0, 7>>}
-T_Times == Q_Times \cup {<<23, 0, 0>>, <<12, 0, 30>>, <<8, 15, 45>>}
+T_Times == Q_Times \cup {<<23, 0, 0>>, <<8, 15, 45>>}
 
 AllCases == TLCEval(ResolveCases \cup EvalCases \cup EvalOrderCases)
 VARIABLES c, pc, call
